@@ -136,7 +136,15 @@ pub fn render(c: &Circuit, r: &mut Prng) -> String {
         s.push_str(nl(r));
         s.push_str("<pos x=\"300\" y=\"200\"/>\n    </visualElement>\n");
     }
-    s.push_str("  </visualElements>\n  <wires/>\n</circuit>\n");
+    s.push_str("  </visualElements>\n");
+    if r.chance(1, 10) {
+        // something that is described like a pin but is no visual element of the circuit: it is not a pin
+        let kind = *r.pick(&["In", "Out", "Clock"]);
+        s.push_str(&format!(
+            "  <template><elementName>{kind}</elementName><elementAttributes><entry><string>Label</string><string>DECOY</string></entry></elementAttributes></template>\n"
+        ));
+    }
+    s.push_str("  <wires/>\n</circuit>\n");
     s
 }
 
